@@ -7,7 +7,7 @@ from fractions import Fraction
 
 from ..absint import Interp, ObjV
 from ..forms import Const, Form, fpow, mk_fn, is_real_form
-from ..rules import PI, S, interp_returns
+from ..rules import PI, S, interp_returns, check_late_binding
 from ..srcmodel import src_of
 
 EXPLANATION = (
@@ -78,6 +78,8 @@ def rule_mzm(ctx):
             continue
         out = rets[0].value
         node = rets[0].node
+        if out.name == "op_input":
+            ctx.violation("C06.4", fi, node, "MZM works directly on `op_input` (no copy)", "the modulated field and the row blanking are written into the caller's optical_signal")
         H = mzm_oracle(u)
         sig, srow, sval = strip_setitem(out.fields.get("signal"))
         want = H * S("op_input.signal")
@@ -295,6 +297,7 @@ def run(ctx):
     rule_mzm(ctx)
     rule_pm(ctx)
     rule_laser(ctx)
+    check_late_binding(ctx, "C06.8", ["devices.MZM", "devices.PM", "devices.LASER"])
     ctx.require_min("C06.1", 16)
     ctx.require_min("C06.2", 16)
     ctx.require_min("C06.5", 6)
